@@ -1708,10 +1708,11 @@ def _shape(e, req=None):
     def need(a, b):
         if a != b:
             req.add(frozenset((a, b)))
-    if e[0] == 'field' and e[2] == 'mat':
-        return (('rows', e[1]), ('cols', e[1])), req
-    if e[0] == 'field' and e[2] == 'bias':
-        return (('rows', e[1]),), req
+    if e[0] == 'field' and e[2] in ('mat', 'bias'):
+        sh = _aff_shape(e[1], req)
+        if sh is None:
+            return None
+        return (sh if e[2] == 'mat' else sh[:1]), req
     if is_call(e, 'AffFuncBase::matrix_view') and len(e[2]) == 1:
         return (('rows', e[2][0]), ('cols', e[2][0])), req
     if is_call(e, 'AffFuncBase::bias_view') and len(e[2]) == 1:
@@ -1719,7 +1720,7 @@ def _shape(e, req=None):
     if e[0] == 'param':
         return None
     if is_call(e, 'ArrayBase::view', 'ArrayBase::to_owned', 'ArrayBase::clone', 'Clone::clone', 'ArrayBase::mapv', 'ArrayBase::map', 'Neg::neg',
-               'ArrayBase::into_owned', 'ArrayBase::view_mut') and e[2]:
+               'ArrayBase::into_owned', 'ArrayBase::view_mut', 'ToOwned::to_owned') and e[2]:
         return _shape(e[2][0], req)
     if is_call(e, 'ArrayBase::t', 'ArrayBase::reversed_axes') and len(e[2]) == 1:
         r = _shape(e[2][0], req)
@@ -1754,6 +1755,33 @@ def _shape(e, req=None):
             for p, q in zip(shapes[0][1:], x[1:]):
                 need(p, q)
         return (('sum',) + tuple(x[0] for x in shapes),) + shapes[0][1:], req
+    return None
+
+
+def _aff_shape(e, req):
+    """(rows, columns) of an affine function / polytope expression; collects what the expression needs"""
+    from ..mir import strip_sites as s_
+    e = s_(e)
+    if e[0] in ('param', 'upvar') or (e[0] == 'field' and e[1][0] in ('param', 'upvar')):
+        return (('rows', e), ('cols', e))
+    if is_call(e, 'AffFuncBase::from_mats') and len(e[2]) == 2:
+        m, b = _shape_or_param(e[2][0], req), _shape_or_param(e[2][1], req)
+        if m is None or b is None or len(m) != 2 or len(b) != 1:
+            return None
+        if m[0] != b[0]:
+            req.add(frozenset((m[0], b[0])))
+        return m
+    if is_call(e, 'AffFuncBase::translate') and len(e[2]) == 2:
+        sh = _aff_shape(e[2][0], req)
+        d = _shape_or_param(e[2][1], req)
+        if sh is None or d is None or len(d) != 1:
+            return None
+        if sh[1] != d[0]:
+            req.add(frozenset((sh[1], d[0])))
+        return sh
+    if is_call(e, 'AffFuncBase::to_owned', 'AffFuncBase::view', 'Clone::clone', 'AffFuncBase::clone', 'AffFuncBase::as_polytope', 'AffFuncBase::as_function',
+               'AffFuncBase::normalize', 'AffFuncBase::negate', 'AffFuncBase::new') and e[2]:
+        return _aff_shape(e[2][0], req)
     return None
 
 
@@ -1801,13 +1829,13 @@ def check_dimension_guards(ctx, rule, names):
             R = Resolver(b)
             site = q + '#dimension-guard'
             rets = R.return_expr()
-            if len(rets) != 1 or not is_call(rets[0][1], 'AffFuncBase::from_mats'):
-                ctx.undecided(rule, site, 'result is not one from_mats(..) expression', b.span)
+            if len(rets) != 1:
+                ctx.undecided(rule, site, 'result is not one expression', b.span)
                 continue
             bb, ret = rets[0]
             req = set()
             _set_param_ranks(b)
-            ok_shape = all(_shape(x, req) is not None for x in ret[2])
+            ok_shape = _aff_shape(ret, req) is not None
             guards = []
             for l in literals(b, R, bb):
                 for op, x, y in cmp_facts([l]):
